@@ -231,6 +231,10 @@ theorem collect_topHits (f addr : Field) (k : Nat) (desc : Bool) (docs : List Do
 theorem collect_hist (p : HistP) (sub : Req) (docs : List Doc) :
     collect (M := M) (.hist p sub) docs = collectB sub (histPoss p) docs := rfl
 
+theorem collect_composite (srcs : List CompSrc) (size : Nat) (after : Option Int) (sub : Req)
+    (docs : List Doc) :
+    collect (M := M) (.composite srcs size after sub) docs = collectB sub (compKeys srcs) docs := rfl
+
 theorem collect_range (f : Field) (cuts : List Int) (sub : Req) (docs : List Doc) :
     collect (M := M) (.range f cuts sub) docs = collectB sub (rangeIdxs f cuts) docs := rfl
 
@@ -292,6 +296,7 @@ def DocOK : Req → Doc → Prop
   | .range f cuts sub, d => (rangeIdxs f cuts d).Nodup ∧ DocOK sub d
   | .filter _ _ sub, d => DocOK sub d
   | .topHits _ _ _ _, _ => True
+  | .composite srcs _ _ sub, d => (compKeys srcs d).Nodup ∧ DocOK sub d
 
 section final
 variable {M : Type} [AddOp M] [LawfulAddOp M]
@@ -392,6 +397,12 @@ theorem finalize_collect : ∀ (r : Req) (docs : List Doc), (∀ d ∈ docs, Doc
       simp; omega
   | .topHits f addr k desc, docs, _ => by
     rw [collect_topHits]; rfl
+  | .composite srcs size after sub, docs, h => by
+    have ih : ∀ q : Doc → Bool, finalize sub (collect (M := M) sub (docs.filter q)) = evalAgg M sub (docs.filter q) :=
+      fun q => finalize_collect sub _ (docOK_filter q (fun d hd => (h d hd).2))
+    rw [collect_composite]
+    show compPage size after _ = compPage size after _
+    rw [entries_eq sub (compKeys srcs) docs (fun d hd => (h d hd).1) ih]
   | .terms p sub, docs, h => by
     have ih : ∀ q : Doc → Bool, finalize sub (collect (M := M) sub (docs.filter q)) = evalAgg M sub (docs.filter q) :=
       fun q => finalize_collect sub _ (docOK_filter q (fun d hd => h d hd))
